@@ -110,6 +110,7 @@ class num_tags:
     params = dict(self=DynamicT(_stringtable=Obj('_DynamicStringTable', _stream=Stream, _table_offset=U64)))
     requires = DYN_INV + ["self._num_tags == -1", "self._offset < 2**62"]
     returns = Int
+    modifies = ["self._num_tags"]
     loops = {0: dict(invariant=["forall(lambda j: dyn(self, j).d_tag != 'DT_NULL', 0, $k)", "self._num_tags == -1",
                                 "$k == 0 or self._offset + $k * self._tagsize <= len(self._stream.B)"],
                      variant="len(self._stream.B) + self._tagsize - (self._offset + $k * self._tagsize)")}
